@@ -75,6 +75,16 @@ func runC13(l markupLine) Verdict {
 	if msg := compareMarkup(exp, res); msg != "" {
 		return failf("ParseMarkup(%q): %s", input, msg)
 	}
+	// ParseResult.Attribute finds an attribute by name
+	for _, w := range exp.Attrs {
+		a, ok := res.Attribute(w.Name)
+		if !ok || a.Name != w.Name {
+			return failf("ParseMarkup(%q): Attribute(%q) = %+v, %v although the line has such a marker", input, w.Name, a, ok)
+		}
+	}
+	if a, ok := res.Attribute("no_such_marker_name"); ok {
+		return failf("ParseMarkup(%q): Attribute(\"no_such_marker_name\") found %+v", input, a)
+	}
 	// TextForAttribute returns exactly the enclosed text
 	runes := []rune(res.Text)
 	for _, a := range res.Attributes {
